@@ -658,7 +658,7 @@ public:
      * @param idMap The IdMap object to construct.
      * @param reportedConnections A set of connection identifiers to prevent duplicate reporting.
      */
-    void buildComponentIdMap(const ComponentPtr &component, IdMap &idMap, std::set<std::string> &reportedConnections);
+    void buildComponentIdMap(const ComponentPtr &component, IdMap &idMap, std::set<std::pair<std::string, std::string>> &reportedConnections);
 
     /** @brief Utility function to add an item to the idMap.
      *
@@ -2790,7 +2790,7 @@ IdMap Validator::ValidatorImpl::buildModelIdMap(const ModelPtr &model)
 {
     IdMap idMap;
     std::string info;
-    std::set<std::string> reportedConnections;
+    std::set<std::pair<std::string, std::string>> reportedConnections;
     // Model.
     if (!model->id().empty()) {
         info = " - model '" + model->name() + "'";
@@ -2847,7 +2847,7 @@ IdMap Validator::ValidatorImpl::buildModelIdMap(const ModelPtr &model)
     return idMap;
 }
 
-void Validator::ValidatorImpl::buildComponentIdMap(const ComponentPtr &component, IdMap &idMap, std::set<std::string> &reportedConnections)
+void Validator::ValidatorImpl::buildComponentIdMap(const ComponentPtr &component, IdMap &idMap, std::set<std::pair<std::string, std::string>> &reportedConnections)
 {
     std::string info;
 
@@ -2879,12 +2879,15 @@ void Validator::ValidatorImpl::buildComponentIdMap(const ComponentPtr &component
             auto equiv = item->equivalentVariable(e);
             auto equivParent = owningComponent(equiv);
             if (equivParent != nullptr) {
-                // Skipping half of the equivalences to avoid duplicate reporting.
-                std::string s1 = item->name() + component->name();
-                std::string s2 = equiv->name() + equivParent->name();
+                // Skipping half of the equivalences to avoid duplicate reporting: an equivalence is handled from the side
+                // that comes first when component name and variable name are compared as a pair (concatenated names can
+                // read the same on both sides).
+                auto side1 = std::make_pair(component->name(), item->name());
+                auto side2 = std::make_pair(equivParent->name(), equiv->name());
+                bool handledFromThisSide = (side1 == side2) ? (item.get() < equiv.get()) : (side1 < side2);
                 std::string mappingId = Variable::equivalenceMappingId(item, equiv);
                 // Variable mapping.
-                if ((s1 < s2) && !mappingId.empty()) {
+                if (handledFromThisSide && !mappingId.empty()) {
                     std::string mappingDescription =
                         "between variable '" + item->name() + "' in component '" + component->name()
                         + "' and variable '" + equiv->name() + "' in component '" + equivParent->name() + "'";
@@ -2902,8 +2905,8 @@ void Validator::ValidatorImpl::buildComponentIdMap(const ComponentPtr &component
                 }
                 // Connections.
                 auto connectionId = Variable::equivalenceConnectionId(item, equiv);
-                std::string connection = component->name() < equivParent->name() ? component->name() + equivParent->name() : equivParent->name() + component->name();
-                if ((s1 < s2) && !connectionId.empty() && (reportedConnections.count(connection) == 0)) {
+                auto connection = component->name() < equivParent->name() ? std::make_pair(component->name(), equivParent->name()) : std::make_pair(equivParent->name(), component->name());
+                if (handledFromThisSide && !connectionId.empty() && (reportedConnections.count(connection) == 0)) {
                     std::string connectionDescription =
                         "between components '" + component->name() + "' and '" + equivParent->name()
                         + "' because of variable equivalence between variables '" + item->name()
